@@ -47,30 +47,30 @@ type loopInfo struct {
 }
 
 type FnCtx struct {
-	w        *World
-	fn       *ssa.Function
-	key      string
-	contract *FuncContract
-	pkg      *types.Package
-	decls    []string
-	log      []string
-	obls     []*Obligation
-	vals     map[ssa.Value]Val
-	reach    Term
-	st       *State
-	entry    *State
-	alloc0   Term
-	nfresh   int
-	outs     map[*ssa.BasicBlock][]edgeOut
-	modPreds map[string][]modPred
-	modAll   bool // package initialiser: may write anything it owns
-	kindCnt  map[string]int
-	paramEV  map[string]EV
-	loops    map[*ssa.BasicBlock]*loopInfo
-	loopList []*loopInfo
-	curInstr ssa.Instruction
-	isInit   bool
-	covers   []*Obligation
+	w           *World
+	fn          *ssa.Function
+	key         string
+	contract    *FuncContract
+	pkg         *types.Package
+	decls       []string
+	log         []string
+	obls        []*Obligation
+	vals        map[ssa.Value]Val
+	reach       Term
+	st          *State
+	entry       *State
+	alloc0      Term
+	nfresh      int
+	outs        map[*ssa.BasicBlock][]edgeOut
+	modPreds    map[string][]modPred
+	modAll      bool // package initialiser: may write anything it owns
+	kindCnt     map[string]int
+	paramEV     map[string]EV
+	loops       map[*ssa.BasicBlock]*loopInfo
+	loopList    []*loopInfo
+	curInstr    ssa.Instruction
+	isInit      bool
+	covers      []*Obligation
 	resultNames []string
 	returnReach []Term
 	blockIns    map[*ssa.BasicBlock][]Term
@@ -450,7 +450,7 @@ func (fc *FnCtx) frameCheck(key string, obj Term, what string) {
 		alts = append(alts, p(obj))
 	}
 	goal := or(alts...)
-	tags := []string{"C14"}
+	tags := []string{"C13", "C14"}
 	fc.oblige("frame", goal, "write to "+key+" outside the declared modifies set: "+what, tags, "")
 	// loop-level frames
 	for _, li := range fc.loopList {
@@ -588,7 +588,7 @@ func (fc *FnCtx) storeTo(addr Val, ptrType types.Type, v Val) {
 			for _, p := range fc.modPreds[a.key] {
 				alts = append(alts, p(""))
 			}
-			fc.oblige("frame", or(alts...), "write to package variable "+a.key, []string{"C14"}, "")
+			fc.oblige("frame", or(alts...), "write to package variable "+a.key, []string{"C13", "C14"}, "")
 		}
 		fc.setHeap(a.key, fc.asTerm(v, et))
 	case string:
@@ -1138,7 +1138,7 @@ func (fc *FnCtx) mapUpdate(x *ssa.MapUpdate) {
 	m := fc.term(x.Map)
 	fc.nilCheck(m, "assignment to entry in nil map")
 	if !fc.isInit {
-		fc.oblige("frame", app("isfresh", m, fc.alloc0), "map update on a pre-existing map", []string{"C14"}, "")
+		fc.oblige("frame", app("isfresh", m, fc.alloc0), "map update on a pre-existing map", []string{"C13", "C14"}, "")
 	}
 	// map contents are modelled as immutable uninterpreted functions; record the new binding for fresh maps only
 	mt := x.Map.Type().Underlying().(*types.Map)
